@@ -384,8 +384,8 @@ var def = pbt.Def[Case]{Name: "stalled-peer-does-not-block-others", Gen: gen, Ru
 
 func TestProp(t *testing.T) {
 	outerT = t
-	pbt.Check(t, run, def, 1200, 100000)
-	pbt.Check(t, run, defR, 800, 100000)
+	pbt.Check(t, run, def, 1200, 50000)
+	pbt.Check(t, run, defR, 800, 50000)
 }
 
 func TestReplay(t *testing.T) {
